@@ -55,7 +55,7 @@ def make_case(g, name, t, **extra):
 
 
 def eval_grammar(res, g, entries, inputs, nontrivial, tag='', pyglobals=None, extra_check=None,
-                 keep_whole_grammar=False, style=None, max_hangs=2):
+                 keep_whole_grammar=False, style=None, max_hangs=2, key_whole=False):
     """Compile g once; for each entry (name or (name, label)) and input compare sourcer with
     the reference.  `nontrivial(events) -> bool`.  `extra_check(name, t, exp, got, raw) ->
     None | str` adds reference-free invariants."""
@@ -97,7 +97,7 @@ def eval_grammar(res, g, entries, inputs, nontrivial, tag='', pyglobals=None, ex
                     bad = True
             if nontrivial(it.events):
                 if key is None:
-                    key = peg.render_rule(rd[name], g.mode)
+                    key = desc + '@' + name if key_whole else peg.render_rule(rd[name], g.mode)
                 res.nontrivial.add(h64(tag, key, t))
                 res.hist['nontrivial'] += 1
                 if label:
